@@ -124,9 +124,9 @@ def check_kwargs_shape(sigs, compute_features_kwargs, axis):
         kwargs_shape = (sigs_dim0,)
 
     # 3D checks
-    elif sigs_dim1 != None and axis == 0 and kwargs_dim0 != sigs_dim0:
+    elif sigs_dim1 != None and axis == 0 and (kwargs_dim0 != sigs_dim0 or kwargs_dim1 is not None):
         kwargs_shape = (sigs_dim0,)
-    elif sigs_dim1 != None and axis == 1 and kwargs_dim0 != sigs_dim1:
+    elif sigs_dim1 != None and axis == 1 and (kwargs_dim0 != sigs_dim1 or kwargs_dim1 is not None):
         kwargs_shape = (sigs_dim1,)
     elif sigs_dim1 != None and axis == (0,1) and (kwargs_dim0!=sigs_dim0 or kwargs_dim1!=sigs_dim1):
         kwargs_shape = (sigs_dim0, sigs_dim1)
